@@ -28,7 +28,7 @@ prop = Prop(
     technique="Hypothesis PBT over operation histories, differential oracle: every read through the caching SqliteDatabase is compared with a fresh uncached sqlite3 connection to the same file",
     rule=(
         "histories of 1..30 operations (add / update with a drawn column subset / every get_* / read-update-read of one id / deep mutation of a "
-        "previously returned row / concurrent batch of gets and updates on the same one or two ids) over workflows, ports, steps, tokens, "
+        "previously returned row or listing of rows, followed by reads of every touched id through every getter / list-edit-read of a workflow's steps or ports / concurrent batch of gets and updates on the same one or two ids) over workflows, ports, steps, tokens, "
         "deployments, targets, filters, executions, dependencies and provenance, with ids chosen relative to the current state; "
         "a final sweep reads every entity through every getter (cached getters twice), then updates up to three rows per table and reads them back. Non-trivial = (measured) an update of a row whose cache entry was "
         "populated, followed by a read of the same id, or a caller mutation of a returned row followed by a read of the same id, "
@@ -75,6 +75,7 @@ add_op = st.fixed_dictionaries({"o": st.just("add"), "t": st.sampled_from(ENTITY
 upd_op = st.fixed_dictionaries({"o": st.just("upd"), "t": st.sampled_from(UPD_TABLES + ["step", "port", "target"]), "i": st.integers(0, 20), "v": vals})
 get_op = st.fixed_dictionaries({"o": st.just("get"), "g": st.sampled_from(GETTERS + list(CACHED.values())), "i": st.integers(0, 20), "v": vals})
 mut_op = st.fixed_dictionaries({"o": st.just("mut"), "k": st.integers(0, 5)})
+lmr_op = st.fixed_dictionaries({"o": st.just("lmr"), "g": st.integers(0, 2), "i": st.integers(0, 20), "v": vals})
 gug_op = st.fixed_dictionaries({"o": st.just("gug"), "t": st.sampled_from(UPD_TABLES), "i": st.integers(0, 20), "v": vals})
 batch_item = st.fixed_dictionaries({"k": st.sampled_from(["get", "upd", "get", "upd", "get2"]), "j": st.integers(0, 1), "v": vals})
 batch_op = st.fixed_dictionaries(
@@ -84,7 +85,7 @@ batch_op = st.fixed_dictionaries(
 history = st.builds(
     lambda first, rest: [first, *rest],
     add_op,  # a history on an empty database starts by creating something
-    st.lists(st.one_of(add_op, add_op, upd_op, upd_op, get_op, get_op, get_op, mut_op, batch_op, gug_op), max_size=29),
+    st.lists(st.one_of(add_op, add_op, upd_op, upd_op, get_op, get_op, get_op, mut_op, batch_op, gug_op, lmr_op), max_size=29),
 )
 det_case = st.fixed_dictionaries({"ops": history, "schedule": st.lists(st.integers(0, 3), max_size=10)})
 aio_case = st.fixed_dictionaries({"ops": history})
@@ -396,7 +397,7 @@ def _truth(con: sqlite3.Connection, getter: str, arg, flag: bool):
 
 
 def _mutate_deep(x, top: bool = True) -> bool:
-    """Deep mutation of a value a caller received. Returns True if anything mutable was touched."""
+    """Deep in-place edit of a value a caller received (a row, or a list of rows). Returns True if anything mutable was touched."""
     done = False
     if isinstance(x, dict):
         for v in list(x.values()):
@@ -407,10 +408,18 @@ def _mutate_deep(x, top: bool = True) -> bool:
         done = True
     elif isinstance(x, list):
         for v in x:
-            done |= _mutate_deep(v, False)
+            done |= _mutate_deep(v, top and isinstance(v, dict))  # the rows of a listing are rows too
         x.append(SENTINEL)
         done = True
     return done
+
+
+# table of the rows a getter hands out (dict rows only: sqlite3.Row objects are immutable)
+ROW_TABLE = {
+    "get_workflow_steps": "step", "get_workflow_ports": "port", "get_workflows_by_name": "workflow", "get_port_from_token": "port",
+    "get_workflow": "workflow", **{g: t for t, g in CACHED.items()},
+}
+LIST_GETTERS = ["get_workflow_steps", "get_workflow_ports", "get_workflows_by_name"]
 
 
 JSON_COLS = {"params", "config", "scheduling_policy", "wraps", "value"}
@@ -428,7 +437,7 @@ class Interp:
         self.ids: dict[str, list[int]] = {t: [] for t in ENTITY_TABLES}
         self.token_has_port: dict[int, bool] = {}
         self.deps: list[tuple[int, int]] = []
-        self.returned: list[tuple[str, int, object]] = []
+        self.returned: list[tuple[str, str, int, object]] = []
         self.viol: list[Violation] = []
         self.updated_while_cached: set[tuple[str, int]] = set()
         self.mutated: set[tuple[str, int]] = set()
@@ -616,8 +625,29 @@ class Interp:
             self.heal(table, i)
             return
         if remember:
-            self.returned.append((table, i, got_raw))
+            self.returned.append((getter, table, i, got_raw))
             del self.returned[:-6]
+
+    async def mutate_returned(self, getter: str, table: str, i: int, raw) -> None:
+        """The caller edits a value it got from ``getter`` in place; afterwards every id it touched is read through every
+        getter of its table (the id getter first: listings may legitimately refresh what they return)."""
+        rows = raw if isinstance(raw, list) else [raw]
+        touched = {(table, i)}
+        rt = ROW_TABLE.get(getter)
+        for r in rows:
+            if rt and isinstance(r, dict) and isinstance(r.get("id"), int) and r["id"] in self.ids[rt]:
+                touched.add((rt, r["id"]))
+        if not _mutate_deep(raw):
+            return
+        self.counts["mut"] += 1
+        if isinstance(raw, list):
+            self.rec.label("mutated-listing")
+        self.mutated |= touched
+        for t, j in sorted(touched):
+            order = [MAIN_GETTER[t]] if t in MAIN_GETTER else []
+            order += [g for g in GETTERS if GETTER_TABLE[g] == t and g not in order]
+            for g in order:
+                await self.get(g, j, self.Chooser([j]), remember=False)
 
     # -- batches
     async def batch(self, op: dict) -> None:
@@ -700,15 +730,23 @@ class Interp:
                 await self.get(MAIN_GETTER[t], i, c)
             elif o == "mut":
                 if self.returned:
-                    table, i, raw = self.returned[op["k"] % len(self.returned)]
-                    if _mutate_deep(raw):
-                        self.mutated.add((table, i))
-                        self.counts["mut"] += 1
+                    await self.mutate_returned(*self.returned[op["k"] % len(self.returned)])
+            elif o == "lmr":  # list the rows of a workflow, edit the listing in place, read the listed ids back
+                c = self.Chooser(op["v"])
+                w = self.ids["workflow"][op["i"] % len(self.ids["workflow"])] if self.ids["workflow"] else await self.add("workflow", c)
+                getter = LIST_GETTERS[op["g"] % len(LIST_GETTERS)]
+                if getter != "get_workflows_by_name" and c.n(3):
+                    await self.add(ROW_TABLE[getter], self.Chooser([0, 0, *op["v"]]))  # make sure the listing is not always empty
+                    w = self.ids["workflow"][-1] if c.n(2) else w
+                before = len(self.returned)
+                await self.get(getter, w, c)
+                if len(self.returned) > before or (self.returned and self.returned[-1][0] == getter):
+                    await self.mutate_returned(*self.returned[-1])
             elif o == "batch":
                 await self.batch(op)
-        # final sweep: every entity through every getter, twice (the second pass reads what the first one cached)
-        for sweep in range(2):
-            for getter in GETTERS if sweep == 0 else CACHED.values():
+        # final sweep: the id getters of the cached tables, then every entity through every getter, then the cached getters again
+        for sweep in range(3):
+            for getter in GETTERS if sweep == 1 else CACHED.values():
                 for i in list(self.ids[GETTER_TABLE[getter]]):
                     await self.get(getter, i, self.Chooser([i, sweep]), remember=False)
         # epilogue: every (now cached) row is updated once more and read back
@@ -732,15 +770,36 @@ class Interp:
             rec.label("mutated-returned-row")
         rec.nontrivial(self.nontrivial)
         if self.viol:
-            from vf.runner import load_known
-
-            known = {f["kind"] for f in load_known("C09")}
+            known = _known_kinds()
             for v in self.viol:
                 v.all_kinds = [x.kind for x in self.viol]
             for v in self.viol:
                 if v.kind not in known:
                     raise v
             raise self.viol[0]
+
+
+_KNOWN: set | None = None
+
+
+def _known_kinds() -> set:
+    """Listed known kinds (only used to decide which of several violations of one case is raised first). Read once per
+    process; a file of known_findings.d being rewritten at that moment must not turn into a harness error."""
+    global _KNOWN
+    if _KNOWN is None:
+        import time
+
+        from vf.runner import load_known
+
+        for attempt in range(3):
+            try:
+                _KNOWN = {f["kind"] for f in load_known("C09")}
+                break
+            except (ValueError, OSError):
+                time.sleep(0.2)
+        else:
+            return set()
+    return _KNOWN
 
 
 def _mkdtemp() -> str:
